@@ -74,6 +74,10 @@ type Exec struct {
 	parentFresh    map[*Term]bool
 	iterStart      map[*ssa.BasicBlock]*State
 	evalLoop       *ssa.BasicBlock // loop whose clauses are being evaluated
+	stopBlocks     []*ssa.BasicBlock
+	reached        [][]reach
+	noMerge        bool
+	skipStop       bool
 }
 
 type unsupported struct{ msg string }
@@ -512,6 +516,11 @@ func (ex *Exec) enterLoop(st *State, h *ssa.BasicBlock, pred *ssa.BasicBlock) bo
 
 func (ex *Exec) execFrom(st *State, b *ssa.BasicBlock, idx int, pred *ssa.BasicBlock) []Outcome {
 	fr := st.top()
+	if idx == 0 && len(ex.stopBlocks) > 0 && ex.stopBlocks[len(ex.stopBlocks)-1] == b && b.Parent() == fr.fn && !isBackEdge(pred, b) && ex.skipHeadOnce != b {
+		k := len(ex.reached) - 1
+		ex.reached[k] = append(ex.reached[k], reach{st: st, pred: pred})
+		return nil
+	}
 	if idx == 0 && ex.skipHeadOnce == b {
 		ex.skipHeadOnce = nil
 	} else if idx == 0 {
@@ -576,6 +585,7 @@ func (ex *Exec) execFrom(st *State, b *ssa.BasicBlock, idx int, pred *ssa.BasicB
 				}
 			}
 			s2 := st.clone()
+			base := st.pc
 			st.assume(c)
 			st.path += "T"
 			s2.assume(Not(c))
@@ -584,9 +594,26 @@ func (ex *Exec) execFrom(st *State, b *ssa.BasicBlock, idx int, pred *ssa.BasicB
 			if ex.npaths > maxPaths {
 				ex.fail("path limit exceeded")
 			}
+			J := ex.eng.ipdoms(fr.fn)[b]
+			if J == nil || ex.collect || ex.noMerge || len(st.frames) == 0 {
+				o1 := ex.execFrom(st, b.Succs[0], 0, b)
+				o2 := ex.execFrom(s2, b.Succs[1], 0, b)
+				return append(o1, o2...)
+			}
+			// run both branches up to the join block, merge what arrives there, continue once
+			depth := len(st.frames)
+			ex.stopBlocks = append(ex.stopBlocks, J)
+			ex.reached = append(ex.reached, nil)
 			o1 := ex.execFrom(st, b.Succs[0], 0, b)
 			o2 := ex.execFrom(s2, b.Succs[1], 0, b)
-			return append(o1, o2...)
+			rs := ex.reached[len(ex.reached)-1]
+			ex.stopBlocks = ex.stopBlocks[:len(ex.stopBlocks)-1]
+			ex.reached = ex.reached[:len(ex.reached)-1]
+			outs := append(o1, o2...)
+			if len(rs) == 0 {
+				return outs
+			}
+			return append(outs, ex.continueMerged(base, rs, J, depth)...)
 		case *ssa.Jump:
 			return ex.execFrom(st, b.Succs[0], 0, b)
 		case *ssa.Return:
@@ -1019,7 +1046,7 @@ func (ex *Exec) globalValue(st *State, a *Addr, loaded *Val) *Val {
 		return scalar(c, loaded.Ty)
 	}
 	if loaded.K == VScalar && a.Path == "" {
-		if s := loaded.T.Sort; s == SRef {
+		if s := loaded.T.Sort; s == SRef || s == SIface {
 			// reflect.Type globals etc: stable constants
 			return scalar(Sym("globvar$"+short(a.Glob), s), loaded.Ty)
 		}
@@ -1556,4 +1583,89 @@ func (ex *Exec) assumeLoaded(st *State, v *Val) {
 			ex.assumeLoaded(st, f)
 		}
 	}
+}
+
+// continueMerged resumes execution at join block J from the states that reached it.
+func (ex *Exec) continueMerged(base *pcNode, rs []reach, J *ssa.BasicBlock, depth int) []Outcome {
+	li := ex.eng.loops(J.Parent())
+	_, isHead := li.heads[J]
+	fallback := func() []Outcome {
+		var outs []Outcome
+		for _, r := range rs {
+			ex.skipStop = true
+			outs = append(outs, ex.execFromNoStop(r.st, J, r.pred)...)
+		}
+		return outs
+	}
+	if len(rs) == 1 {
+		return ex.execFromNoStop(rs[0].st, J, rs[0].pred)
+	}
+	for _, r := range rs {
+		if len(r.st.frames) != depth {
+			return fallback()
+		}
+	}
+	var pred *ssa.BasicBlock
+	if isHead {
+		// a loop head evaluates its phis itself: all states must come from the same predecessor
+		pred = rs[0].pred
+		for _, r := range rs {
+			if r.pred != pred {
+				return fallback()
+			}
+		}
+	} else {
+		// evaluate J's phis in each state with its own predecessor, then merge
+		for _, r := range rs {
+			fr := r.st.top()
+			var phis []*ssa.Phi
+			var vals []*Val
+			for _, in := range J.Instrs {
+				phi, ok := in.(*ssa.Phi)
+				if !ok {
+					break
+				}
+				for i, p := range J.Preds {
+					if p == r.pred {
+						phis = append(phis, phi)
+						vals = append(vals, ex.val(r.st, phi.Edges[i]))
+					}
+				}
+			}
+			for i, phi := range phis {
+				fr.vals[phi] = vals[i]
+				if phi.Comment != "" {
+					fr.names[phi.Comment] = namedVal{v: vals[i]}
+				}
+			}
+		}
+	}
+	sts := make([]*State, len(rs))
+	for i, r := range rs {
+		sts[i] = r.st
+	}
+	m := ex.mergeStates(base, sts)
+	if m == nil {
+		return fallback()
+	}
+	if isHead {
+		return ex.execFromNoStop(m, J, pred)
+	}
+	idx := 0
+	for idx < len(J.Instrs) {
+		if _, ok := J.Instrs[idx].(*ssa.Phi); !ok {
+			break
+		}
+		idx++
+	}
+	if idx == 0 {
+		return ex.execFromNoStop(m, J, rs[0].pred)
+	}
+	return ex.execFrom(m, J, idx, nil)
+}
+
+// execFromNoStop enters block b even if it is the innermost stop block (used when
+// resuming after a merge: the stop entry for b has already been popped).
+func (ex *Exec) execFromNoStop(st *State, b *ssa.BasicBlock, pred *ssa.BasicBlock) []Outcome {
+	return ex.execFrom(st, b, 0, pred)
 }
